@@ -448,6 +448,39 @@ static void cast(Type *from, Type *to) {
 //
 // This function returns true if `ty` has only floating-point
 // members in its byte range [lo, hi).
+// Returns true if `ty` is or contains a long double.
+bool has_ldouble(Type *ty) {
+  if (ty->kind == TY_STRUCT || ty->kind == TY_UNION) {
+    for (Member *mem = ty->members; mem; mem = mem->next)
+      if (has_ldouble(mem->ty))
+        return true;
+    return false;
+  }
+
+  if (ty->kind == TY_ARRAY)
+    return ty->array_len > 0 && has_ldouble(ty->base);
+
+  return ty->kind == TY_LDOUBLE;
+}
+
+// Returns true if `ty` is a long double or an aggregate whose only
+// scalar is one long double (class X87, X87UP).
+static bool is_ldouble_only(Type *ty) {
+  if (ty->kind == TY_STRUCT || ty->kind == TY_UNION) {
+    if (ty->size != 16 || !ty->members)
+      return false;
+    for (Member *mem = ty->members; mem; mem = mem->next)
+      if (mem->ty->size && !is_ldouble_only(mem->ty))
+        return false;
+    return true;
+  }
+
+  if (ty->kind == TY_ARRAY)
+    return ty->array_len == 1 && is_ldouble_only(ty->base);
+
+  return ty->kind == TY_LDOUBLE;
+}
+
 bool has_flonum(Type *ty, int lo, int hi, int offset) {
   if (ty->kind == TY_STRUCT || ty->kind == TY_UNION) {
     for (Member *mem = ty->members; mem; mem = mem->next)
@@ -479,6 +512,11 @@ static bool has_flonum2(Type *ty) {
 // per 8 bytes of its size, SSE if the eightbyte holds only
 // floating-point members, INTEGER otherwise.
 static bool fits_in_regs(Type *ty, int gp, int fp) {
+  // The eightbytes of a long double are of class X87/X87UP: an aggregate
+  // that contains one is passed in memory.
+  if (has_ldouble(ty))
+    return false;
+
   bool two = ty->size > 8;
   int nfp = has_flonum1(ty) + (two && has_flonum2(ty));
   int ngp = !has_flonum1(ty) + (two && !has_flonum2(ty));
@@ -645,6 +683,13 @@ static void copy_ret_buffer(Obj *var) {
   if (ty->size == 0)
     return;
 
+  // An aggregate that consists of one long double is of class X87 and
+  // comes back in %st(0).
+  if (is_ldouble_only(ty)) {
+    println("  fstpt %d(%%rbp)", var->offset);
+    return;
+  }
+
   if (has_flonum1(ty)) {
     assert(ty->size == 4 || 8 <= ty->size);
     if (ty->size == 4)
@@ -685,6 +730,13 @@ static void copy_struct_reg(void) {
   // An aggregate without members is returned in no register.
   if (ty->size == 0)
     return;
+
+  // An aggregate that consists of one long double is of class X87 and
+  // is returned in %st(0).
+  if (is_ldouble_only(ty)) {
+    println("  fldt (%%rax)");
+    return;
+  }
 
   println("  mov %%rax, %%rdi");
 
